@@ -71,18 +71,19 @@ where CL03<CS>: Scheme<PubKey = CL03PublicKey, PrivKey = CL03SecretKey>, CS::Has
     let maxn = if env.thorough() { 3 } else { 2 };
     let w: World<CS> = World::generate(66);
     let items = collect::<CS>(env, &w, maxn, "c17");
-    env.ctx.set_rule("every honest issuance proof (all non-empty hidden subsets, + one with trusted party) and signature proof (all subsets), n <= 2 (thorough 3). In the JSON view: (i) every object shaped {value, randomness} and (ii) every ordered pair of integer leaves (quick: sibling pairs under one parent; thorough: all ordered pairs for n <= 2, sibling pairs for n = 3) is tested as an opening (V, R): for every public base pair (g, h, N) in {(a_i, b, N)} u {(g_i, h_c, N)} u {(g_i', h', N') of the trusted key} and every secret x the prover holds (hidden m_i, e, s, v, r): V != g^x * h^R; V * g^(-R) != v; the full-vector opening V = prod g_i^{m_i} * h^R with revealed attributes known; no leaf equals x, c*x or (1+c)*x for a hidden attribute x and a challenge c the recipient has or can recompute; and the dictionary attack with candidates {true value, true value + 1}: the test must not single out the true candidate; sibling responses must not differ by challenge * (m_i - m_j); inside every embedded range proof no product / quotient of two of the commitments E, E', E_a_1, E_a_2, E_b_1, E_b_2 equals g^y for y in {x_a1^2, x_a2, x_b1^2, x_b2, x_a1, x_b1, 2^T x - aa, bb - 2^T x} or a sum / difference of two of them (true secret x versus x + 1). Hidden-position lists are also given in non-ascending order. State = (proof, leaf pair); non-trivial = at least one modular recomputation against a real serialized proof.");
+    env.ctx.set_rule("every honest issuance proof (all non-empty hidden subsets, + one with trusted party) and signature proof (all subsets), n <= 2 (thorough 3). In the JSON view: (i) every object shaped {value, randomness} and (ii) every ordered pair of integer leaves (quick: sibling pairs under one parent; thorough: all ordered pairs for the plain items with n <= 2, sibling pairs otherwise) is tested as an opening (V, R): for every public base pair (g, h, N) in {(a_i, b, N)} u {(g_i, h_c, N)} u {(g_i', h', N') of the trusted key} and every secret x the prover holds (hidden m_i, e, s, v, r): V != g^x * h^R; V * g^(-R) != v; the full-vector opening V = prod g_i^{m_i} * h^R with revealed attributes known; no leaf equals x, c*x or (1+c)*x for a hidden attribute x and a challenge c the recipient has or can recompute; and the dictionary attack with candidates {true value, true value + 1}: the test must not single out the true candidate; sibling responses must not differ by challenge * (m_i - m_j); inside every embedded range proof no product / quotient of two of the commitments E, E', E_a_1, E_a_2, E_b_1, E_b_2 equals g^y for y in {x_a1^2, x_a2, x_b1^2, x_b2, x_a1, x_b1, 2^T x - aa, bb - 2^T x} or a sum / difference of two of them (true secret x versus x + 1). Hidden-position lists are also given in non-ascending order. State = (proof, leaf pair); non-trivial = at least one modular recomputation against a real serialized proof.");
     par_for(&items, |_, it| {
         if !env.want(&it.id) || env.ctx.out_of_time() { return; }
         let n = it.n;
         let leaves = int_leaf_paths(&it.proof);
         let val = |p: &Vec<String>| leaf_int(json_get(&it.proof, p).unwrap()).unwrap();
-        // candidate (V, R) pairs
+        // candidate (V, R) pairs; all ordered pairs only for the plain items (ascending hidden list, hash-sized attributes)
+        let plain_item = it.hidden.windows(2).all(|w| w[0] < w[1]) && !it.id.ends_with("/zero") && !it.id.ends_with("/one");
         let mut pairs: Vec<(Vec<String>, Vec<String>)> = Vec::new();
         for a in &leaves { for b in &leaves {
             if a == b { continue; }
             let siblings = a.len() == b.len() && a[..a.len() - 1] == b[..b.len() - 1];
-            if (env.thorough() && it.n <= 2) || siblings { pairs.push((a.clone(), b.clone())); }
+            if (env.thorough() && it.n <= 2 && plain_item) || siblings { pairs.push((a.clone(), b.clone())); }
         } }
         // public base pairs
         let mut bases: Vec<(String, Integer, Integer, Integer)> = Vec::new();
